@@ -13,6 +13,7 @@ Fixpoint rep (p : bytes) (n : nat) : bytes :=
 Record case := mkCase {
   c_cfg : wcfg;
   c_keys : list bytes;        (* masking keys, in the order they appear on the wire (client only) *)
+  c_infl : list (bytes * option bytes);   (* compress/flate on (compressed message ++ tail), computed by the driver's frame walker *)
   c_ops : list wop;
   o_wire : bytes;             (* observed: everything written to the net.Conn *)
   o_errs : list N;            (* observed per operation: 0 nil, 1 errInvalidControlFrame, 2 errBadWriteOpCode, 3 ErrCloseSent, 4 other *)
@@ -24,6 +25,12 @@ Fixpoint beqb (a b : bytes) : bool :=
   | [], [] => true
   | x :: a', y :: b' => (x =? y) && beqb a' b'
   | _, _ => false
+  end.
+
+Definition lookup_infl (tbl : list (bytes * option bytes)) (d : bytes) : option bytes :=
+  match find (fun kv => beqb (fst kv) d) tbl with
+  | Some (_, v) => v
+  | None => None
   end.
 
 Definition err_code (e : option werr) : N :=
@@ -70,7 +77,7 @@ Definition spec_close_ok (c : N) : bool :=
    frames <= 125 bytes, mask bit as the direction demands) *)
 Definition oracle (c : case) : bool :=
   let want := expected (close_at_end (ops_events (c_ops c) (map (fun e => e =? 0) (o_errs c)))) in
-  events_eqb (expected (spec_read (strict spec_close_ok) (peer_cfg (c_cfg c)) (fun _ => None) (o_wire c))) want
+  events_eqb (expected (spec_read (strict spec_close_ok) (peer_cfg (c_cfg c)) (fun d => lookup_infl (c_infl c) (d ++ flate_tail)) (o_wire c))) want
   && events_eqb (map norm_event (o_read c)) want.
 
 Definition run (cs : list case) := failing corr oracle cs.
